@@ -35,7 +35,7 @@ abbrev maxCiphertext : Nat := 16384 + 2048
 abbrev maxCiphertextTLS13 : Nat := 16384 + 256
 abbrev tcpMSSEstimate : Nat := 1208
 abbrev recordSizeBoostThreshold : Nat := 131072
-abbrev maxUselessRecords : Nat := 16
+abbrev maxUselessRecords : Nat := 32
 abbrev maxHandshake : Nat := 65536
 
 abbrev tCCS : Nat := 20
